@@ -12,6 +12,7 @@ use crate::meta::*;
 use crate::proto::{guarded, Sink};
 use crate::rng::Rng;
 use in_toto::crypto::{PublicKey, Signature};
+use in_toto::interchange::DataInterchange;
 use in_toto::models::inspection::Inspection;
 use in_toto::models::step::Step;
 use in_toto::models::{LayoutMetadata, LinkMetadata, Metablock, MetadataWrapper};
@@ -82,6 +83,112 @@ fn answer<T: Serialize + DeserializeOwned + PartialEq + 'static>(sink: &mut Sink
             }
         },
     }
+}
+
+/// the text the library writes for an accepted document (`serde_json::to_string_pretty(&doc)`, as
+/// `in_toto_run` and the CLI do, and the compact `to_string`) against the model's writers applied to
+/// the model's encoding (`doc_text`): this pins the member order of every derive and the writers; the
+/// text must also read back (`from_str`) as the same document.
+fn text_answer<T: Serialize + DeserializeOwned + PartialEq + 'static>(sink: &mut Sink, doc: &Value, op: &str) -> Option<(u8, String)> {
+    let d = doc.clone();
+    let v = match guarded(move || serde_json::from_value::<T>(d)) {
+        Ok(Ok(v)) => v,
+        Ok(Err(_)) => return Some((1, "reject".into())),
+        Err(()) => return None,
+    };
+    let pretty = serde_json::to_string_pretty(&v).ok()?;
+    let compact = serde_json::to_string(&v).ok()?;
+    for (text, what) in [(&pretty, "pretty-printed"), (&compact, "compact")] {
+        match serde_json::from_str::<T>(text) {
+            Ok(v2) => sink.oracle(v2 == v, &format!("a document changes when written as {} text and read again", what), op),
+            Err(_) => sink.oracle(false, &format!("the {} text written for a document is rejected by its reader", what), op),
+        }
+        match serde_json::from_slice::<T>(text.as_bytes()) {
+            Ok(v2) => sink.oracle(v2 == v, &format!("a document changes when written as {} bytes and read again", what), op),
+            Err(_) => sink.oracle(false, &format!("the {} bytes written for a document are rejected by its reader", what), op),
+        }
+    }
+    // `JsonPretty::to_writer` goes through a `Value` (members sorted): comparable for every document
+    let mut jp: Vec<u8> = Vec::new();
+    if in_toto::interchange::JsonPretty::to_writer(&mut jp, &v).is_err() {
+        sink.oracle(false, "JsonPretty::to_writer fails on an accepted document", op);
+        return None;
+    }
+    match in_toto::interchange::JsonPretty::from_slice::<T>(&jp) {
+        Ok(v2) => sink.oracle(v2 == v, "a document changes when written by JsonPretty::to_writer and read again", op),
+        Err(_) => sink.oracle(false, "the text written by JsonPretty::to_writer is rejected by its reader", op),
+    }
+    // digest maps and the layout's key table are `HashMap`s: with two or more entries the order in
+    // which the derive writes them is unspecified, so the direct texts are compared only without those
+    if hash_ordered(&serde_json::to_value(&v).ok()?, false) {
+        return Some((0, format!("ok - - {}", crate::proto::hex(&jp))));
+    }
+    Some((1, format!("ok {} {} {}", crate::proto::hex(pretty.as_bytes()), crate::proto::hex(compact.as_bytes()), crate::proto::hex(&jp))))
+}
+
+/// does the document hold a `HashMap` with two or more entries (a digest map under `materials` /
+/// `products`, the `keys` table)?
+fn hash_ordered(v: &Value, in_artifacts: bool) -> bool {
+    match v {
+        Value::Object(m) => m.iter().any(|(k, x)| {
+            let arts = k == "materials" || k == "products";
+            if k == "keys" || in_artifacts {
+                if x.as_object().map_or(false, |o| o.len() >= 2) {
+                    return true;
+                }
+            }
+            hash_ordered(x, arts)
+        }),
+        Value::Array(xs) => xs.iter().any(|x| hash_ordered(x, false)),
+        _ => false,
+    }
+}
+
+pub fn doc_text_case(sink: &mut Sink, kind: &str, doc: &Value, class: &str) {
+    if doc.to_string().contains("\"Unknown\"") {
+        return;
+    }
+    let op = format!("doc_text {} {}", kind, proto(doc, &mut None));
+    let ans = match kind {
+        "link" => text_answer::<LinkMetadata>(sink, doc, &op),
+        "step" => text_answer::<Step>(sink, doc, &op),
+        "insp" => text_answer::<Inspection>(sink, doc, &op),
+        "sig" => text_answer::<Signature>(sink, doc, &op),
+        "layout" => text_answer::<LayoutMetadata>(sink, doc, &op),
+        "meta" => text_answer::<MetadataWrapper>(sink, doc, &op),
+        "block" => text_answer::<Metablock>(sink, doc, &op),
+        _ => unreachable!(),
+    };
+    if let Some((flag, ans)) = ans {
+        sink.stat(&format!("doc_text/{}/{}/{}", kind, class, ans.split(' ').next().unwrap()));
+        sink.op(&format!("doc_text {} {} {}", kind, flag, proto(doc, &mut None)), &ans, doc.is_object());
+    }
+}
+
+fn has_float(v: &Value) -> bool {
+    match v {
+        Value::Number(n) => !(n.is_i64() || n.is_u64()),
+        Value::Array(xs) => xs.iter().any(has_float),
+        Value::Object(m) => m.values().any(has_float),
+        _ => false,
+    }
+}
+
+/// serde_json's two writers on an arbitrary value: `writetext`
+pub fn write_text_case(sink: &mut Sink, v: &Value) {
+    if has_float(v) {
+        return;
+    }
+    let op = format!("writetext {}", proto(v, &mut None));
+    let compact = serde_json::to_string(v).unwrap();
+    let pretty = serde_json::to_string_pretty(v).unwrap();
+    sink.oracle(serde_json::from_str::<Value>(&pretty).ok().as_ref() == Some(v), "a value changes when pretty-printed and read again", &op);
+    sink.oracle(serde_json::from_str::<Value>(&compact).ok().as_ref() == Some(v), "a value changes when written and read again", &op);
+    let mut jp: Vec<u8> = Vec::new();
+    let w = in_toto::interchange::JsonPretty::to_writer(&mut jp, v);
+    sink.oracle(w.is_ok() && jp == pretty.as_bytes(), "JsonPretty::to_writer differs from serde_json's pretty printer on a value", &op);
+    sink.stat("writetext");
+    sink.op(&op, &format!("{} {}", crate::proto::hex(compact.as_bytes()), crate::proto::hex(pretty.as_bytes())), v.is_object() || v.is_array());
 }
 
 pub fn doc_case(sink: &mut Sink, kind: &str, doc: &Value, class: &str) {
@@ -369,9 +476,15 @@ pub fn run_docs(sink: &mut Sink, r: &mut Rng, pool: &[KeyInfo], n: usize) {
         docs.push(("link", serde_json::to_value(&layout).unwrap()));
         for (kind, d) in &docs {
             doc_case(sink, kind, d, "valid");
+            doc_text_case(sink, kind, d, "valid");
+            write_text_case(sink, d);
             for _ in 0..3 {
                 let m = mutate(d, r);
                 doc_case(sink, kind, &m, "mutated");
+                if r.chance(1, 3) {
+                    doc_text_case(sink, kind, &m, "mutated");
+                    write_text_case(sink, &m);
+                }
                 if r.chance(1, 3) {
                     let m2 = mutate(&m, r);
                     doc_case(sink, kind, &m2, "mutated2");
